@@ -32,6 +32,9 @@ func Create(options Options) gen.NetworkHandshake {
 	if options.PoolSize < 1 {
 		options.PoolSize = defaultPoolSize
 	}
+	if options.PoolSize > maxPoolSize {
+		options.PoolSize = maxPoolSize
+	}
 	if len(options.AtomMapping) > 0 {
 		mapping = make(map[gen.Atom]gen.Atom)
 		for k, v := range options.AtomMapping {
